@@ -632,6 +632,7 @@ package geometry
 //@   loop 0 invariant poly != nil && !old($alloc)[poly] && polyExt(poly) != nil && RingInv(polyExt(poly)) && polyNHoles(poly) == len(holes)
 //@   loop 0 invariant isBS(polyExt(poly)) && sNpts(polyExt(poly)) == len(exterior) && (forall i int :: 0 <= i && i < len(exterior) ==> sPt(polyExt(poly), i) == ptAt(exterior, i))
 //@   loop 0 invariant forall h int :: 0 <= h && h < $i ==> (polyHole(poly,h) != nil && RingInv(polyHole(poly,h)) && isBS(polyHole(poly,h)) && sNpts(polyHole(poly,h)) == len(holeAt(holes,h)))
+//@   loop 0 invariant Frame: forall P *Poly :: old($alloc)[P] ==> (P.Exterior == old(P.Exterior) && P.Holes == old(P.Holes))
 //@   loop 0 assert holeAt(holes, $i) == holes[$i]
 
 // ---------------------------------------------------------------- C11: Valid / Empty / Rect / Center at geometry level (any finite coordinates: order mode)
